@@ -2370,3 +2370,540 @@ func sortedFuncSlice(p *Program, fs []*ssa.Function) []*ssa.Function {
 	}
 	return sortedFuncs(p, m)
 }
+
+// ---------------------------------------------------------------------------
+// SIBLING-ALWAYS-SUPPLIED (R03i). The parent-hash step of the core treats the
+// zero hash as "this subtree is gone: the other hash moves up unhashed". In
+// verification both inputs of that step must therefore come from the claim,
+// from an earlier step or from the proof on every path: if one of them can be
+// the default value of its variable (a branch that assigns nothing because
+// the proof ran out), the hash of an ancestor is accepted at a descendant's
+// position with a truncated proof.
+
+func checkSiblingSupplied(p *Program, r *Report, rule string, a *verifyAnchors) {
+	if a.core == nil {
+		r.MissingAnchor(rule, "calculateHashes", "hashing core not found")
+		return
+	}
+	core := a.core
+	n := 0
+	for _, sc := range callsIn(p, core) {
+		callee := sc.call.Common().StaticCallee()
+		if callee == nil || !p.owns(callee) {
+			continue
+		}
+		sig := callee.Signature
+		if sig.Results().Len() != 1 || !isHashType(sig.Results().At(0).Type()) {
+			continue
+		}
+		var hashArgs []ssa.Value
+		for i, arg := range sc.call.Common().Args {
+			if i < sig.Params().Len() && isHashType(sig.Params().At(i).Type()) {
+				hashArgs = append(hashArgs, arg)
+			}
+		}
+		if len(hashArgs) != 2 {
+			continue
+		}
+		n++
+		key := fmt.Sprintf("%s->%s#%d/inputs", p.FuncName(core), sc.label, sc.ord)
+		var bad string
+		for i, arg := range hashArgs {
+			if why := mayBeDefault(arg, sc.call, map[ssa.Value]bool{}); why != "" {
+				bad = fmt.Sprintf("hash input %d of the parent-hash step %s", i+1, why)
+				break
+			}
+		}
+		if bad != "" {
+			r.Violate(rule, key, posOf(p, sc.call), bad+": the step takes a zero input as a deleted subtree and moves the other hash up unhashed, so with a truncated proof the hash of an ancestor is accepted at a descendant's position", "in "+p.FuncName(core))
+		} else {
+			r.Discharge(rule, key, posOf(p, sc.call), "both hash inputs of the parent-hash step are assigned from the claim, an earlier step or the proof on every path", true)
+		}
+	}
+	r.Floor(rule, "parent-hash steps in the core", n, 1)
+}
+
+// mayBeDefault: v can be the zero value of its declared variable at use:
+// a zero constant on some phi edge, or a load of a local that some path from
+// its declaration to the use leaves unassigned.
+func mayBeDefault(v ssa.Value, use ssa.Instruction, seen map[ssa.Value]bool) string {
+	if seen[v] {
+		return ""
+	}
+	seen[v] = true
+	switch x := v.(type) {
+	case *ssa.Const:
+		if x.Value == nil {
+			return "can be the zero value (a path assigns nothing to the variable)"
+		}
+	case *ssa.Phi:
+		for _, e := range x.Edges {
+			if why := mayBeDefault(e, use, seen); why != "" {
+				return why
+			}
+		}
+	case *ssa.UnOp:
+		if x.Op != token.MUL {
+			return ""
+		}
+		al, ok := x.X.(*ssa.Alloc)
+		if !ok {
+			return ""
+		}
+		// whole-value stores into the local
+		stores := map[*ssa.BasicBlock][]int{}
+		for _, ref := range *al.Referrers() {
+			if st, ok := ref.(*ssa.Store); ok && st.Addr == al {
+				for i, in := range st.Block().Instrs {
+					if in == ssa.Instruction(st) {
+						stores[st.Block()] = append(stores[st.Block()], i)
+					}
+				}
+			}
+		}
+		idxIn := func(b *ssa.BasicBlock, in ssa.Instruction) int {
+			for i, y := range b.Instrs {
+				if y == in {
+					return i
+				}
+			}
+			return -1
+		}
+		lb, li := x.Block(), idxIn(x.Block(), x)
+		ab, ai := al.Block(), idxIn(al.Block(), al)
+		storedBefore := func(b *ssa.BasicBlock, from, to int) bool {
+			for _, i := range stores[b] {
+				if i > from && (to < 0 || i < to) {
+					return true
+				}
+			}
+			return false
+		}
+		// path from the declaration to the load avoiding every store?
+		visited := map[*ssa.BasicBlock]bool{}
+		var dfs func(b *ssa.BasicBlock, from int) bool
+		dfs = func(b *ssa.BasicBlock, from int) bool {
+			if b == lb && from < li {
+				if !storedBefore(b, from, li) {
+					return true
+				}
+				if from >= 0 {
+					return false
+				}
+			}
+			if storedBefore(b, from, -1) {
+				return false
+			}
+			for _, s := range b.Succs {
+				if visited[s] {
+					continue
+				}
+				visited[s] = true
+				if dfs(s, -1) {
+					return true
+				}
+			}
+			return false
+		}
+		if dfs(ab, ai) {
+			return "is read from the local " + al.Comment + " which some path from its declaration leaves unassigned"
+		}
+	}
+	return ""
+}
+
+// ---------------------------------------------------------------------------
+// MISSING-DECIDED-BY-LOOKUP (R14h). Which proof positions a partial forest
+// lacks is a fact about its node store. Every success return of the method
+// that reports them, other than the one for an empty request, must therefore
+// be reached through a look-up of the node store; a shortcut on a
+// configuration flag (Full) is wrong for a forest that was created from roots
+// only and holds nothing.
+
+func checkMissingByLookup(p *Program, r *Report, rule string) {
+	fn := p.Func("(*MapPollard).GetMissingPositions")
+	if fn == nil {
+		r.MissingAnchor(rule, "(*MapPollard).GetMissingPositions", "missing-positions method not found")
+		return
+	}
+	var req ssa.Value
+	for _, par := range fn.Params[1:] {
+		if sl, ok := par.Type().Underlying().(*types.Slice); ok && isUint64(sl.Elem()) {
+			req = par
+		}
+	}
+	var lookups []*ssa.BasicBlock
+	reach := p.StaticReach(fn)
+	for _, b := range fn.Blocks {
+		for _, in := range b.Instrs {
+			if kind, method, _ := storeCall(p, in); kind == "nodes" && method == "Get" {
+				lookups = append(lookups, b)
+				continue
+			}
+			if c, ok := in.(*ssa.Call); ok {
+				if sc := c.Common().StaticCallee(); sc != nil && p.owns(sc) {
+					sub := p.StaticReach(sc)
+					sub[sc] = true
+					for g := range sub {
+						if !reach[g] && g != sc {
+							continue
+						}
+						for _, gb := range g.Blocks {
+							for _, gin := range gb.Instrs {
+								if kind, method, _ := storeCall(p, gin); kind == "nodes" && method == "Get" {
+									lookups = append(lookups, b)
+								}
+							}
+						}
+					}
+				}
+			}
+		}
+	}
+	n := 0
+	for _, ret := range returnsOf(fn) {
+		if fn.Recover != nil && ret.Block() == fn.Recover {
+			continue // the return of the recover block (a deferred unlock is present): no value of its own
+		}
+		n++
+		key := fmt.Sprintf("(*MapPollard).GetMissingPositions/return#%d", n)
+		// the empty request
+		emptyReq := false
+		for _, gd := range guardsAt(ret.Block()) {
+			rel, ok := relOf(gd)
+			if !ok {
+				continue
+			}
+			for _, pr := range [][2]ssa.Value{{rel.X, rel.Y}, {rel.Y, rel.X}} {
+				s, isLen := lenArg(pr[0])
+				c, isConst := pr[1].(*ssa.Const)
+				if isLen && req != nil && s == req && isConst && c.Value != nil && c.Int64() == 0 && rel.Op == token.EQL {
+					emptyReq = true
+				}
+			}
+		}
+		if emptyReq {
+			r.Discharge(rule, key, posOf(p, ret), "return for an empty request", false)
+			continue
+		}
+		// some look-up on every path: a look-up block dominates the return, or the return is
+		// reached only through a loop over the proof positions that looks each one up (the loop
+		// may run zero times only when there is no proof position at all)
+		ok := false
+		for _, lb := range lookups {
+			if lb.Dominates(ret.Block()) {
+				ok = true
+			}
+			if h := innermostLoopHeader(lb); h != nil && h.Dominates(ret.Block()) {
+				ok = true
+			}
+		}
+		if ok {
+			r.Discharge(rule, key, posOf(p, ret), "reached through the look-ups of the node store", true)
+		} else {
+			r.Violate(rule, key, posOf(p, ret), "a result is returned for a non-empty request without consulting the node store: what is missing cannot be decided from configuration (a forest created from roots holds nothing, whatever its Full flag says)", "in (*MapPollard).GetMissingPositions")
+		}
+	}
+	r.Floor(rule, "returns of the missing-positions method", n, 2)
+}
+
+// ---------------------------------------------------------------------------
+// SPARSE-LIST-CURSOR (R14g). The proof hashes handed to VerifyPartialProof are
+// those of the MISSING positions only - a subsequence of the canonical proof
+// positions. They have to be consumed through their own cursor, advanced
+// exactly when one is consumed; indexing them with the counter of the loop
+// over all proof positions pairs hash k with position k instead of with the
+// k-th missing position.
+
+func checkSparseCursor(p *Program, r *Report, rule string) {
+	fn := p.Func("(*MapPollard).VerifyPartialProof")
+	if fn == nil {
+		r.MissingAnchor(rule, "(*MapPollard).VerifyPartialProof", "partial-proof verifier not found")
+		return
+	}
+	// the sparse list: the last []Hash parameter (the first is parallel to the targets)
+	var sparse ssa.Value
+	for _, par := range fn.Params {
+		if isHashSlice(par.Type()) {
+			sparse = par
+		}
+	}
+	if sparse == nil {
+		r.Undecided(rule, "(*MapPollard).VerifyPartialProof/sparse-list", p.Pos(fn.Pos()), "cannot identify the list of hashes for the missing positions")
+		return
+	}
+	n := 0
+	for _, b := range fn.Blocks {
+		for _, in := range b.Instrs {
+			ia, ok := in.(*ssa.IndexAddr)
+			if !ok || ia.X != sparse {
+				continue
+			}
+			n++
+			key := fmt.Sprintf("(*MapPollard).VerifyPartialProof/%s[%d]", sparse.Name(), n)
+			if _, isConst := ia.Index.(*ssa.Const); isConst {
+				r.Discharge(rule, key, posOf(p, ia), "constant index", false)
+				continue
+			}
+			// index = phi(init, phi+1): the increment must be dominated by the read
+			var incs []*ssa.BinOp
+			seen := map[ssa.Value]bool{}
+			var walk func(v ssa.Value)
+			walk = func(v ssa.Value) {
+				if seen[v] {
+					return
+				}
+				seen[v] = true
+				switch x := v.(type) {
+				case *ssa.Phi:
+					for _, e := range x.Edges {
+						walk(e)
+					}
+				case *ssa.BinOp:
+					if x.Op == token.ADD {
+						incs = append(incs, x)
+						walk(x.X)
+					}
+				}
+			}
+			walk(ia.Index)
+			// the index itself may be the incremented value (range loops: idx = phi+1)
+			own := true
+			why := ""
+			if len(incs) == 0 {
+				own, why = false, "the index is not a cursor"
+			}
+			for _, inc := range incs {
+				if inc == ia.Index {
+					own, why = false, "the index is the counter of the enclosing loop (advanced on every iteration)"
+					break
+				}
+				if !(b == inc.Block() || b.Dominates(inc.Block())) {
+					own, why = false, "the index is advanced on paths that do not consume an element"
+				}
+			}
+			if own {
+				r.Discharge(rule, key, posOf(p, ia), "consumed through its own cursor, advanced only where an element is consumed", true)
+			} else {
+				r.Violate(rule, key, posOf(p, ia), "the hashes of the missing positions are a subsequence of the proof positions, but "+why+": hash k is paired with proof position k instead of the k-th missing position", "in (*MapPollard).VerifyPartialProof")
+			}
+		}
+	}
+	r.Floor(rule, "reads of the missing-position hashes", n, 1)
+}
+
+// ---------------------------------------------------------------------------
+// EXISTENCE-BEFORE-DETECTION (R15g). A stated belief: the tracker calls the
+// tree/branch detection with its error result discarded ("cannot fail"). That
+// holds for a recorded deletion (a position the prover emitted for the forest
+// before the block) but not for a tracked leaf position: the tracked list also
+// holds the leaves the block itself added, which do not exist in the forest
+// the deletions are undone in. For them the detection fails, returns zero
+// values, and the leaf is "moved" as if it stood in the first tree. Every
+// call with a discarded error whose position argument comes from a list of
+// positions must be behind an exact existence test of that position, unless
+// the list is in the reviewed table below.
+//
+// discardedErrorInputsValid: (function, parameter) pairs whose elements exist
+// in the forest the function works on, with the reason.
+var discardedErrorInputsValid = map[string]string{
+	"undoDel/deleted": "recorded deletions are the prover's targets for the forest before the block (the property quantifies over such histories)",
+}
+
+func checkExistenceBeforeDetection(p *Program, r *Report, rule string) {
+	var entries []*ssa.Function
+	for _, f := range p.Funcs {
+		if f.Parent() == nil && f.Signature.Recv() != nil && p.localNamed(f.Signature.Recv().Type(), "CachingScheduleTracker") && f.Object() != nil && f.Object().Exported() {
+			entries = append(entries, f)
+		}
+	}
+	if len(entries) == 0 {
+		r.MissingAnchor(rule, "CachingScheduleTracker", "no exported method of the caching-schedule tracker found")
+		return
+	}
+	reach := p.StaticReach(entries...)
+	n := 0
+	for _, g := range sortedFuncs(p, reach) {
+		if g.Blocks == nil || !p.owns(g) {
+			continue
+		}
+		for _, sc := range callsIn(p, g) {
+			cc := sc.call.Common()
+			callee := cc.StaticCallee()
+			if callee == nil || !p.owns(callee) {
+				continue
+			}
+			ei := errorResultIndex(callee.Signature)
+			if ei < 0 {
+				continue
+			}
+			// is the error looked at?
+			used := false
+			if sc.call.Referrers() != nil {
+				for _, ref := range *sc.call.Referrers() {
+					if ex, ok := ref.(*ssa.Extract); ok && ex.Index == ei && ex.Referrers() != nil && len(*ex.Referrers()) > 0 {
+						used = true
+					}
+				}
+			}
+			if callee.Signature.Results().Len() == 1 && sc.call.Referrers() != nil && len(*sc.call.Referrers()) > 0 {
+				used = true
+			}
+			if used {
+				continue
+			}
+			// position lists the arguments come from
+			type src struct {
+				par  *ssa.Parameter
+				elem ssa.Value
+			}
+			var srcs []src
+			for _, a := range cc.Args {
+				if !isUint64(a.Type()) {
+					continue
+				}
+				seen := map[ssa.Value]bool{}
+				var walk func(v ssa.Value, depth int)
+				walk = func(v ssa.Value, depth int) {
+					if v == nil || seen[v] || depth > 8 {
+						return
+					}
+					seen[v] = true
+					switch x := v.(type) {
+					case *ssa.UnOp:
+						if ia, ok := x.X.(*ssa.IndexAddr); ok {
+							base := ia.X
+							for {
+								if ph, ok := base.(*ssa.Phi); ok && len(ph.Edges) > 0 {
+									base = ph.Edges[0]
+									continue
+								}
+								break
+							}
+							// the list the element is taken from: a parameter, or a local list made from one
+							lseen := map[ssa.Value]bool{}
+							var lists func(l ssa.Value, d int)
+							lists = func(l ssa.Value, d int) {
+								if l == nil || lseen[l] || d > 6 {
+									return
+								}
+								lseen[l] = true
+								switch y := l.(type) {
+								case *ssa.Parameter:
+									if sl, ok := y.Type().Underlying().(*types.Slice); ok && isUint64(sl.Elem()) {
+										srcs = append(srcs, src{y, x})
+									}
+								case *ssa.Call:
+									for _, ca := range y.Common().Args {
+										lists(ca, d+1)
+									}
+								case *ssa.Phi:
+									for _, e := range y.Edges {
+										lists(e, d+1)
+									}
+								case *ssa.Slice:
+									lists(y.X, d+1)
+								}
+							}
+							lists(base, 0)
+							return
+						}
+						walk(x.X, depth+1)
+					case *ssa.Call:
+						for _, ca := range x.Common().Args {
+							walk(ca, depth+1)
+						}
+					case *ssa.BinOp:
+						walk(x.X, depth+1)
+						walk(x.Y, depth+1)
+					case *ssa.Phi:
+						for _, e := range x.Edges {
+							walk(e, depth+1)
+						}
+					case *ssa.Convert:
+						walk(x.X, depth+1)
+					}
+				}
+				walk(a, 0)
+			}
+			if len(srcs) == 0 {
+				continue
+			}
+			n++
+			key := fmt.Sprintf("%s->%s#%d/discarded-error", p.FuncName(g), sc.label, sc.ord)
+			verdict, detail := "", ""
+			for _, s := range srcs {
+				tk := p.FuncName(g) + "/" + s.par.Name()
+				if why, ok := discardedErrorInputsValid[tk]; ok {
+					if verdict == "" {
+						verdict, detail = "ok", "the position comes from "+s.par.Name()+": "+why
+					}
+					continue
+				}
+				subject := func(v ssa.Value) bool { return v == s.elem }
+				if name, ok := existenceGuardFor(p, sc.call.Block(), subject); ok {
+					if verdict == "" || verdict == "ok" {
+						verdict, detail = "ok", "the position from "+s.par.Name()+" is tested with "+name+" against the leaf count first"
+					}
+					continue
+				}
+				verdict, detail = "bad", "the error of "+sc.label+" is discarded although its position comes from the list "+s.par.Name()+", which also holds positions that do not exist in this forest (leaves the block itself added): the call then fails, returns zero values and the position is treated as part of the first tree"
+				break
+			}
+			if verdict == "bad" {
+				r.Violate(rule, key, posOf(p, sc.call), detail, "in "+p.FuncName(g))
+			} else {
+				r.Discharge(rule, key, posOf(p, sc.call), detail, true)
+			}
+		}
+	}
+	r.Floor(rule, "position calls with a discarded error in the tracker", n, 2)
+}
+
+// existenceGuardFor: a guard in force at b derives from a reviewed existence
+// test that receives the leaf count (a parameter or field named numLeaves /
+// NumLeaves, possibly minus the additions) and the subject position.
+func existenceGuardFor(p *Program, b *ssa.BasicBlock, subject func(ssa.Value) bool) (string, bool) {
+	isTest := func(x ssa.Value) bool {
+		c, ok := x.(*ssa.Call)
+		if !ok {
+			return false
+		}
+		sc := c.Common().StaticCallee()
+		if sc == nil || !p.owns(sc) || !existenceTests[sc.Name()] {
+			return false
+		}
+		hasCount, hasSubject := false, false
+		for _, a := range c.Common().Args {
+			if flowsFrom(a, subject, 0, map[ssa.Value]bool{}) {
+				hasSubject = true
+				continue
+			}
+			if flowsFrom(a, func(y ssa.Value) bool {
+				if _, f, ok := fieldRead(y); ok && f == "NumLeaves" {
+					return true
+				}
+				par, ok := y.(*ssa.Parameter)
+				return ok && strings.EqualFold(par.Name(), "numLeaves")
+			}, 0, map[ssa.Value]bool{}) {
+				hasCount = true
+			}
+		}
+		return hasCount && hasSubject
+	}
+	for _, gd := range guardsAt(b) {
+		c := gd.Cond
+		truth := gd.Truth
+		for {
+			u, ok := c.(*ssa.UnOp)
+			if !ok || u.Op != token.NOT {
+				break
+			}
+			c, truth = u.X, !truth
+		}
+		if isTest(c) && truth {
+			return c.(*ssa.Call).Common().StaticCallee().Name(), true
+		}
+	}
+	return "", false
+}
